@@ -4,10 +4,12 @@ use crate::rng::Rng;
 
 pub mod c01;
 pub mod c02;
+pub mod c05;
+pub mod c06;
 
 /// run the real code for one request; None = unknown function
 pub fn run(r: &Req) -> Option<String> {
-    c01::run(r).or_else(|| c02::run(r))
+    c01::run(r).or_else(|| c02::run(r)).or_else(|| c06::run(r))
 }
 
 /// (request lines, whether the enumerated part was exhaustive over its stated bounds)
@@ -15,6 +17,8 @@ pub fn generate(prop: &str, tier: &str, rng: &mut Rng) -> (Vec<String>, bool) {
     match prop {
         "C01" => c01::generate(tier, rng),
         "C02" => c02::generate(tier, rng),
+        "C05" => c05::generate(tier, rng),
+        "C06" => c06::generate(tier, rng),
         _ => panic!("no generator for {prop}"),
     }
 }
@@ -23,17 +27,23 @@ pub fn rule(prop: &str, tier: &str) -> String {
     match prop {
         "C01" => c01::rule(tier),
         "C02" => c02::rule(tier),
+        "C05" => c05::rule(tier),
+        "C06" => c06::rule(tier),
         _ => String::new(),
     }
 }
 
 /// property-specific comparison (None = generic token comparison)
-pub fn compare(_prop: &str, _r: &Req, _imp: &str, _model: &str) -> Option<bool> {
-    None
+pub fn compare(prop: &str, r: &Req, imp: &str, model: &str) -> Option<bool> {
+    match prop {
+        "C05" => Some(c05::compare(r, imp, model)),
+        "C06" => c06::compare(r, imp, model),
+        _ => None,
+    }
 }
 
 pub fn is_series_key(k: &str) -> bool {
-    k == "xs" || k == "ys"
+    matches!(k, "xs" | "ys" | "ha" | "hb" | "ga" | "gb")
 }
 
 /// series that must keep the same length as `k` while shrinking
@@ -53,6 +63,8 @@ pub fn valid_case(prop: &str, r: &Req) -> bool {
     match prop {
         "C01" => c01::valid_case(r),
         "C02" => c02::valid_case(r),
+        "C05" => c05::valid_case(r),
+        "C06" => c06::valid_case(r),
         _ => true,
     }
 }
